@@ -856,6 +856,7 @@ struct Engine {
     uintmax_t bad = sz + rng.below(3);
     if (bad > I::limit()) bad = sz;
     uintmax_t itcount = 0, ritcount = 0;
+    bool observers_ok = true;
     window([&] {
       if (sz) {
         f = EI<E>::val(cv.front());
@@ -867,6 +868,16 @@ struct Engine {
       if (at_bad_threw) { at_bad_threw = false; try { (void)v.at(static_cast<SizeT>(bad)); } catch (const std::out_of_range &) { at_bad_threw = true; } }
       for (auto it = cv.begin(); it != cv.end(); ++it) ++itcount;
       for (auto it = cv.rbegin(); it != cv.rend(); ++it) ++ritcount;
+      // the remaining observers: const / non-const / c-prefixed iterators agree, data() is begin(), max_size() bounds capacity()
+      unsigned long csum = 0, msum = 0, crsum = 0;
+      for (auto it = cv.cbegin(); it != cv.cend(); ++it) csum = csum * 31u + static_cast<unsigned long>(EI<E>::val(*it).key);
+      for (auto it = v.begin(); it != v.end(); ++it) msum = msum * 31u + static_cast<unsigned long>(EI<E>::val(*it).key);
+      for (auto it = cv.crbegin(); it != cv.crend(); ++it) crsum += static_cast<unsigned long>(EI<E>::val(*it).key);
+      unsigned long fsum = 0;
+      for (auto it = v.rbegin(); it != v.rend(); ++it) fsum += static_cast<unsigned long>(EI<E>::val(*it).key);
+      observers_ok = csum == msum && crsum == fsum && cv.data() == cv.begin() && v.data() == v.begin() && v.end() - v.begin() == static_cast<ptrdiff_t>(v.size()) &&
+                     static_cast<uintmax_t>(cv.max_size()) >= static_cast<uintmax_t>(cv.capacity()) && (cv.cend() - cv.cbegin()) == static_cast<ptrdiff_t>(cv.size());
+      (void)cv.get_allocator();
     });
     MonScope m;
     if (threw) return;
@@ -876,6 +887,7 @@ struct Engine {
     }
     if (!at_bad_threw) violation("C01,C08", "model.at_out_of_range", fmt("at(%ju) with size %ju did not throw std::out_of_range", bad, sz));
     if (itcount != sz || ritcount != sz) violation("C01", "model.iteration_count", "begin..end / rbegin..rend do not span size() elements");
+    if (!observers_ok) violation("C01", "model.observers_disagree", "const/non-const/c-prefixed iterators, data(), size() or max_size() disagree with each other");
   }
 
   // aliasing calls (C10 embedded in histories)
